@@ -49,7 +49,8 @@ def run(ctx):
     scs = [s for s in scenarios(ctx) if not only or only in s[0]]
     ctx.bounds = {"max_calls": 4 if ctx.quick else 6, "budget": {"f": 1}, "programs": len(scs), "horizon_s": scen_txn.H_CALL}
     sub = scen_txn.DedupAcc(ctx)
-    counts = explore.explore_many(sub, [(name, scen_txn.make, params, bounds) for name, params, bounds in scs])
+    # many small programs: one worker task per program (the whole f<=1 tree below it), not one per execution
+    counts = explore.explore_many(sub, [(name, scen_txn.make, params, bounds) for name, params, bounds in scs], descend_level=0)
     sub.finish_into(ctx)
     for v in ctx.violations:
         ctx.log("finding", v["key"])
